@@ -35,11 +35,19 @@ pub struct Case {
 pub const POSITIONS: [&str; 10] = ["struct", "field", "unit-enum", "unit-variant", "tagged-enum", "tagged-variant", "variant-field", "alias", "inline-newtype", "redacted-struct"];
 
 /// terminator-class hazards: at most one kind per doc string (so that signatures name one cause)
-const HAZARDS: [(&str, &str); 5] = [("newline", "\n"), ("block-end", "*/"), ("triple-dquote", "\"\"\""), ("backslash", "\\"), ("trailing-backslash", "\\")];
+const HAZARDS: [(&str, &str); 8] = [("carriage-return", "\r"), ("newline", "\n"), ("block-end", "*/"), ("triple-dquote", "\"\"\""), ("backslash", "\\"), ("trailing-backslash", "\\"), ("newline-crlf", "\r\n"), ("newline-mixed", "\r\n")];
 const BENIGN: [&str; 10] = ["plain words", "//", "#", "`", "\"", "'''", "/*", "x = 1;", "}", "<T>"];
 
 fn hazard_of(d: &DocSpec) -> &'static str {
     let last = d.pieces.last().map(|s| s.as_str()).unwrap_or("");
+    if d.pieces.iter().any(|p| p.replace("\r\n", "").contains('\r')) {
+        return "carriage-return";
+    }
+    let crlf = d.pieces.iter().any(|p| p.contains("\r\n"));
+    let bare_lf = d.pieces.iter().any(|p| p.replace("\r\n", "").contains('\n'));
+    if crlf {
+        return if bare_lf { "newline-mixed" } else { "newline-crlf" };
+    }
     for p in &d.pieces {
         if p.contains('\n') {
             return "newline";
@@ -94,8 +102,9 @@ fn doc_strategy() -> BoxedStrategy<DocSpec> {
                 let (name, text) = HAZARDS[h];
                 // respect the source syntax: `///` cannot hold a newline, `/** */` cannot hold `*/` (and nests `/*`)
                 let ok = match form {
-                    DocForm::Line => name != "newline",
-                    DocForm::Block => name != "block-end",
+                    DocForm::Line => !name.starts_with("newline") && name != "carriage-return",
+                    // a carriage return cannot be written inside a doc comment (rustc rejects a bare CR there)
+                    DocForm::Block => name != "block-end" && name != "newline-crlf" && name != "newline-mixed" && name != "carriage-return",
                     DocForm::Attr => true,
                 };
                 if ok {
@@ -104,6 +113,15 @@ fn doc_strategy() -> BoxedStrategy<DocSpec> {
                     } else {
                         let at = at.min(pieces.len());
                         pieces.insert(at, text.to_string());
+                        if name == "newline-mixed" {
+                            // one doc string with both kinds of line break, in either order
+                            if at % 2 == 0 {
+                                pieces.push("\n".to_string());
+                            } else {
+                                pieces.insert(0, "\n".to_string());
+                            }
+                            pieces.push("tail".into());
+                        }
                         if name == "backslash" && at + 1 == pieces.len() {
                             pieces.push("tail".into());
                         }
@@ -262,6 +280,9 @@ fn eval_program(run: &Run, case: &Case, w: &mut Worker, counting: bool, combined
 pub struct C15;
 impl SubCheck for C15 {
     type Case = Case;
+    fn crash_guard(&self) -> bool {
+        true
+    }
     fn name(&self) -> &'static str {
         "c15-docs"
     }
@@ -310,7 +331,7 @@ impl SubCheck for C15 {
 
 pub fn run(run: &Run) {
     ts::install_panic_hook();
-    run.set_rule("a fixed program with every documentable position (struct, field, unit enum, unit variant, tagged enum, tagged variant, struct-variant field, alias); each position gets 0-3 doc strings written as ///, /** */ or #[doc = \"..\"], built from benign pieces {words, //, #, back-tick, double quote, ''', /*, code-like text} plus at most one terminator-class hazard kind {newline, */, \"\"\", backslash, trailing backslash}; a unique sentinel follows every piece. Oracle: every sentinel occurrence in the output lies inside a comment token of the target language (Python: comment token or expression-statement string, judged by CPython) and the file still tokenises; every sentinel is reproduced. Non-trivial = doc string carries a hazard; distinct by (position, doc string).");
+    run.set_rule("a fixed program with every documentable position (struct, field, unit enum, unit variant, tagged enum, tagged variant, struct-variant field, alias); each position gets 0-3 doc strings written as ///, /** */ or #[doc = \"..\"], built from benign pieces {words, //, #, back-tick, double quote, ''', /*, code-like text} plus at most one terminator-class hazard kind {newline, CRLF, CRLF and LF mixed in one string, a lone carriage return, */, \"\"\", backslash, trailing backslash}; a unique sentinel follows every piece. Oracle: every sentinel occurrence in the output lies inside a comment token of the target language (Python: comment token or expression-statement string, judged by CPython) and the file still tokenises; every sentinel is reproduced. Non-trivial = doc string carries a hazard; distinct by (position, doc string).");
     run.assume("comment/string boundaries are decided by the harness tokeniser for TS/Kotlin/Swift/Scala/Go (language lexical rules incl. nested block comments) and by CPython's tokenize/ast for Python");
     replay_regress(run, &C15);
     search(run, &C15, run.tier.pick(3000, 100_000));    if run.tier == Tier::Thorough {
